@@ -2,6 +2,7 @@ package harness
 
 import (
 	"fmt"
+	"strings"
 	"testing"
 
 	"github.com/opsidian/parsley/combinator"
@@ -20,11 +21,21 @@ func checkC02(ci interface{}, st *Stats) error {
 	g.number()
 	lr := classifyGrammar(g, st)
 	probe := NewProbe()
-	probe.InLen = len(in)
+	probe.InLen = len(normCRLF([]byte(in)))
+	_, _, probe.Base = NewCtxAt(in, c.PreLen)
+	long := len(in) > 40
+	if long {
+		// long inputs (only drawn for small unambiguous templates): the work is quadratic
+		probe.Budget = 40000000
+		st.Class("input of 250-700 bytes")
+	}
 	b := Build(g, BuildOpts{MemoRules: c.memoRules(), Probe: probe})
 	for nt := range g.Rules {
 		for i := 0; i <= len(in); i++ {
-			ctx, f := NewCtx(in)
+			if long && (i > 0 || nt > 0) {
+				continue // every offset of a long input would cost n^3
+			}
+			ctx, f, _ := NewCtxAt(in, c.PreLen)
 			_, _, berr := parseGuarded(b.NT[nt], ctx, data.EmptyIntMap, f.Pos(i))
 			if berr != nil {
 				return fmt.Errorf("parsing N%d at offset %d: %v", nt, i, berr)
@@ -32,7 +43,7 @@ func checkC02(ci interface{}, st *Stats) error {
 		}
 	}
 	// the same through the public entry point
-	ctx, _ := NewCtx(in)
+	ctx, _, _ := NewCtxAt(in, c.PreLen)
 	var perr error
 	func() {
 		defer func() {
@@ -59,6 +70,12 @@ func checkC02(ci interface{}, st *Stats) error {
 	case probe.MaxSlack == -1:
 		st.Class("depth = remaining+1")
 	}
+	if hasKind(g, KLTrim, KRTrim) {
+		st.Class("grammar with LeftTrim/RightTrim")
+	}
+	if c.PreLen > 0 {
+		st.Class("file placed after another file")
+	}
 	if lr.Hidden && len(in) > 0 {
 		st.Class("hidden-lr with non-empty input")
 	}
@@ -73,16 +90,61 @@ func init() {
 		ID:      "C02",
 		NewCase: func() interface{} { return &GCase{} },
 		Gen: func(t *rapid.T) interface{} {
+			pre := 0
+			if rapid.IntRange(0, 3).Draw(t, "placed") == 0 {
+				pre = rapid.IntRange(1, 300).Draw(t, "preLen")
+			}
+			if rapid.IntRange(0, 31).Draw(t, "long") == 13 { // (rapid favours the ends of a range)
+				return genLongC02(t, pre)
+			}
 			o := genOptsC01()
-			o.SkWeights = []int{2, 2, 2, 4, 4, 4, 3, 1, 0, 5, 6}
+			o.SkWeights = []int{2, 2, 2, 4, 4, 4, 3, 1, 0, 5, 6, 7}
 			if rapid.IntRange(0, 4).Draw(t, "extramemo") == 0 {
 				o.ExtraMemo = 4
 			}
+			if rapid.IntRange(0, 3).Draw(t, "trims") == 0 {
+				// counters travel through LeftTrim/RightTrim to another position
+				o.Trims = true
+				o.Alphabet = "ab \n"
+				o.MaxInput += 2
+			}
+			o.Single = rapid.IntRange(0, 5).Draw(t, "single") == 0
 			g := GenGrammar(t, o)
-			return &GCase{G: g, In: GenInput(t, g, o), MemoAll: rapid.Bool().Draw(t, "memoAll")}
+			return &GCase{G: g, In: GenInput(t, g, o), MemoAll: rapid.Bool().Draw(t, "memoAll"), PreLen: pre}
 		},
 		Check: checkC02,
 	})
 }
 
 func TestC02(t *testing.T) { RunProperty(t, "C02") }
+
+// genLongC02: a small unambiguous left-recursive template on an input of several hundred bytes
+// (the re-entry bound grows with the remaining input; counters must keep counting that far).
+func genLongC02(t *rapid.T, pre int) interface{} {
+	sizes := []int{250, 254, 255, 256, 257, 300}
+	if thorough() {
+		sizes = append(sizes, 400, 511, 513, 700)
+	}
+	n := rapid.SampledFrom(sizes).Draw(t, "length")
+	var g *Grammar
+	var in string
+	switch rapid.IntRange(0, 3).Draw(t, "template") {
+	case 0: // P -> P b | a
+		g = &Grammar{Rules: []*Expr{ex(KAny, ex(KSeqOf, rf(0), tm('b')), tm('a'))}, Layer: []int{0}}
+		in = "a" + strings.Repeat("b", n-1)
+	case 1: // P -> a | P b   (alternatives swapped)
+		g = &Grammar{Rules: []*Expr{ex(KAny, tm('a'), ex(KSeqOf, rf(0), tm('b')))}, Layer: []int{0}}
+		in = "a" + strings.Repeat("b", n-1)
+	case 2: // H -> x? H b | a
+		g = &Grammar{Rules: []*Expr{ex(KAny, ex(KSeqOf, ex(KOpt, tm('x')), rf(0), tm('b')), tm('a'))}, Layer: []int{0}}
+		in = rapid.SampledFrom([]string{"a", "xa"}).Draw(t, "head") + strings.Repeat("b", n-2)
+	default: // A -> B x | a ; B -> A y | b
+		g = &Grammar{Rules: []*Expr{ex(KAny, ex(KSeqOf, rf(1), tm('x')), tm('a')), ex(KAny, ex(KSeqOf, rf(0), tm('y')), tm('b'))}, Layer: []int{0, 0}}
+		in = "a" + strings.Repeat("yx", n/2)
+	}
+	if rapid.IntRange(0, 3).Draw(t, "truncate") == 0 {
+		in = in[:len(in)-1] + "?"
+	}
+	g.number()
+	return &GCase{G: g, In: in, MemoAll: true, PreLen: pre}
+}
